@@ -978,6 +978,189 @@ def r19_auto_bits_and_selection(idx, r):
               msg="autos are resolved before (or while) the explicit values of the same call are registered: an auto listed first takes the bit an explicit entry then claims")
 
 
+# ------------------------------------------------------------------------------------------------
+def _unwrap_seq(x):
+    """list(e) / tuple(e) -> e"""
+    while isinstance(x, ast.Call) and dotted(x.func) in ("list", "tuple") and len(x.args) == 1 and not x.keywords:
+        x = x.args[0]
+    return x
+
+
+def _is_stored_order(x):
+    x = _unwrap_seq(x)
+    if isinstance(x, ast.Subscript) and const_str(x.slice) == "flag_order":
+        return True
+    return isinstance(x, ast.Call) and call_attr(x) == "get" and len(x.args) == 1 and const_str(x.args[0]) == "flag_order"
+
+
+def _is_current_order(x, fnode, recv):
+    """`<recv>.sortedFields()` or a local that is bound to nothing else anywhere in the function."""
+    x = _unwrap_seq(x)
+
+    def is_sorted_call(e):
+        return isinstance(e, ast.Call) and call_attr(e) == "sortedFields" and isinstance(e.func, ast.Attribute) and not e.args and not e.keywords \
+            and (recv is None or norm(e.func.value) == recv)
+    if is_sorted_call(x):
+        return True
+    if isinstance(x, ast.Name):
+        defs = [s_ for s_ in iter_stores(fnode) if isinstance(s_.node, ast.Name) and s_.node.id == x.id]
+        return bool(defs) and all(s_.kind == "assign" and s_.value is not None and is_sorted_call(s_.value) for s_ in defs)
+    return False
+
+
+def _states_order_equality(t, pol, fnode, recv):
+    """Does the path condition (t, pol) say `stored flag order == current flag order`, element by element?"""
+    def pair(a, b):
+        return (_is_stored_order(a) and _is_current_order(b, fnode, recv)) or (_is_stored_order(b) and _is_current_order(a, fnode, recv))
+    if isinstance(t, ast.Compare) and len(t.ops) == 1 and isinstance(t.ops[0], ast.Eq if pol else ast.NotEq):
+        return pair(t.left, t.comparators[0])
+    if isinstance(t, ast.Call) and dotted(t.func) == ("all" if pol else "any") and len(t.args) == 1 and isinstance(t.args[0], (ast.GeneratorExp, ast.ListComp)):
+        g = t.args[0]
+        if len(g.generators) != 1 or g.generators[0].ifs:
+            return False
+        gen, e = g.generators[0], g.elt
+        if not (isinstance(gen.iter, ast.Call) and dotted(gen.iter.func) == "zip" and len(gen.iter.args) == 2 and pair(*gen.iter.args)):
+            return False
+        if not (isinstance(gen.target, ast.Tuple) and len(gen.target.elts) == 2 and all(isinstance(x, ast.Name) for x in gen.target.elts)):
+            return False
+        return isinstance(e, ast.Compare) and len(e.ops) == 1 and isinstance(e.ops[0], ast.Eq if pol else ast.NotEq) \
+            and {norm(e.left), norm(e.comparators[0])} == {x.id for x in gen.target.elts}
+    return False
+
+
+def _atoms(t, pol):
+    """(A and B, True) -> (A, True), (B, True);  (A or B, False) -> (A, False), (B, False);  not X flips."""
+    if isinstance(t, ast.UnaryOp) and isinstance(t.op, ast.Not):
+        yield from _atoms(t.operand, not pol)
+    elif isinstance(t, ast.BoolOp) and isinstance(t.op, ast.And if pol else ast.Or):
+        for v in t.values:
+            yield from _atoms(v, pol)
+    else:
+        yield t, pol
+
+
+def r20_verbatim_flag_bytes(idx, r):
+    """Stored flag rows are bit fields in the bit order of the WRITING run (attrs['flag_order'] lists the names by bit position).  Wherever armi turns
+    stored bytes back into a flag set there are two ways: through the old-position -> new-position bit map (`_remapBits`), or verbatim
+    (`<FlagClass>.from_bytes(row)`, or `int.from_bytes(row)` that is not handed to the bit map).  The verbatim way is the identity on bits, so
+    it is only right when stored order == current `sortedFields()` element by element: every verbatim decode, in every function (not only in
+    _unpackImpl), executes under that path condition.  Equal COUNT, equal SET or equal version are not that condition."""
+    from ..flow import path_conditions
+    n = 0
+    for f in idx.all_funcs():
+        if ".tests" in f.module.name or f.name in ("from_bytes", "to_bytes"):
+            continue  # the byte codec of utils.Flag itself (R05.4 decides its byte order)
+        calls = [c for c in iter_calls(f.node) if call_attr(c) == "from_bytes" and isinstance(c.func, ast.Attribute)]
+        if not calls:
+            continue
+        par = f.module.parents()
+        env = single_assign_env(f.node)
+        for i, c in enumerate(calls):
+            n += 1
+            is_int = dotted(c.func.value) == "int"
+            key = f"{f.qualname}:{norm(c.func.value)}.from_bytes#{i}"
+            if is_int:
+                up = par.get(c)
+                mapped = isinstance(up, ast.Call) and call_attr(up) == "_remapBits" and up.args and up.args[0] is c
+                if not mapped and isinstance(up, ast.Assign) and len(up.targets) == 1 and isinstance(up.targets[0], ast.Name) and up.targets[0].id in env:
+                    mapped = any(call_attr(k) == "_remapBits" and k.args and isinstance(k.args[0], ast.Name) and k.args[0].id == up.targets[0].id for k in iter_calls(f.node))
+                if mapped:
+                    r.ok(key + ":through-the-bit-map", f, node=c)
+                    continue
+            recv = None if is_int else norm(c.func.value)
+            conds = [(propagate(t, env), p) for t0, p0 in path_conditions(f.node, c) for t, p in _atoms(t0, p0)]
+            good = any(_states_order_equality(t, p, f.node, recv) for t, p in conds)
+            under = "; ".join(("" if p else "not ") + f"`{norm(t)[:70]}`" for t, p in conds) or "no condition at all"
+            r.require(good, key + ":verbatim-only-under-order-equality", f, node=c,
+                      msg=f"{f.qualname} reads stored flag bytes verbatim (`{norm(c)[:60]}`, no bit map) under [{under}] - none of which says that the stored "
+                          f"attrs['flag_order'] equals the current {recv or '<flag class>'}.sortedFields() element by element: a database written by a run whose flags were "
+                          "registered in another order (same names, same count - two plugins loaded the other way round) reads back with the flags on the permuted bits exchanged")
+    if n < 2:
+        raise AnchorMissing("from_bytes decodes of stored flag rows (FlagSerializer._unpackImpl)")
+
+
+# ------------------------------------------------------------------------------------------------
+class _NdArr:
+    """stand-in for a 1-d numpy array of n values in the exact evaluation of a shape-key function"""
+
+    def __init__(self, n):
+        self.n = n
+
+    def __len__(self):
+        return self.n
+
+    def __repr__(self):
+        return f"ndarray(shape=({self.n},))"
+
+
+_KIND_OF = {"kind:ndarray": lambda v: isinstance(v, _NdArr), "kind:list": lambda v: isinstance(v, list), "kind:tuple": lambda v: isinstance(v, tuple),
+            "kind:int": lambda v: isinstance(v, int), "kind:float": lambda v: isinstance(v, float), "kind:str": lambda v: isinstance(v, str),
+            "kind:bool": lambda v: isinstance(v, bool)}
+_KIND_NAMES = {"np.ndarray": "kind:ndarray", "numpy.ndarray": "kind:ndarray", "list": "kind:list", "tuple": "kind:tuple", "int": "kind:int", "float": "kind:float",
+               "str": "kind:str", "bool": "kind:bool"}
+
+
+def r21_shape_keys(idx, r):
+    """Whether a parameter's per-object values are ragged is decided by comparing one shape key per value (`len(set(keys)) != 1`).  A function of
+    the database package that returns `<value>.shape` for arrays and something else for the other kinds of value IS that key: it is evaluated
+    exactly (MiniEval) for a 1-d ndarray, a list and a tuple of n = 0..3 values and for int / float / None.  Necessary for a right ragged/regular
+    decision: the three EMPTY containers get one key (else an all-empty parameter is dropped), values of different length never share a key
+    whatever their container, and a value that is no sequence gets a key no sequence has (a one-element list is not a scalar)."""
+    from ..minieval import MiniEval, Raised
+    from ..astutil import returned_values
+    nfam = 0
+    for f in idx.all_funcs():
+        if not f.module.name.startswith("armi.bookkeeping.db") or ".tests" in f.module.name:
+            continue
+        a = f.node.args
+        ps = [x.arg for x in a.posonlyargs + a.args + a.kwonlyargs if x.arg not in ("self", "cls")]
+        hit = [v.value.id for v, _ in returned_values(f.node) if isinstance(v, ast.Attribute) and v.attr == "shape" and isinstance(v.value, ast.Name) and v.value.id in ps]
+        if not hit:
+            continue
+        nfam += 1
+        p = hit[0]
+
+        def hook(call, args):
+            if dotted(call.func) == "isinstance" and args is not None and len(args) == 2:
+                ks = args[1] if isinstance(args[1], tuple) else (args[1],)
+                if not all(isinstance(k, str) and k in _KIND_OF for k in ks):
+                    raise AnalysisError(f"{f.qualname}: isinstance against `{norm(call.args[1])}` outside the fragment")
+                return any(_KIND_OF[k](args[0]) for k in ks)
+            return None
+
+        def key_of(v):
+            ev = MiniEval(consts=_KIND_NAMES, skip_calls=("runLog",), call_hook=hook)
+            env = {p: v}
+            if isinstance(v, _NdArr):
+                env[f"{p}.shape"] = (v.n,)
+            try:
+                out, _ = ev.run(f.node, env)
+            except Raised as ex:
+                return f"<raises {ex}>"
+            return out
+
+        N = range(4)
+        C = ("ndarray", "list", "tuple")
+        seq = {n: {"ndarray": key_of(_NdArr(n)), "list": key_of([0.5] * n), "tuple": key_of((0.5,) * n)} for n in N}
+        k0 = seq[0]
+        r.require(k0["ndarray"] == k0["list"] == k0["tuple"], f"{f.qualname}:empty-values-get-one-key", f,
+                  msg=f"{f.qualname} gives an empty ndarray / list / tuple the keys {k0['ndarray']!r} / {k0['list']!r} / {k0['tuple']!r}: `[np.array([]), []]` (every object's value empty) is taken "
+                      "for ragged, each empty entry becomes an unset one and the parameter is not written at all instead of reading back as empty sequences")
+        for n in N:
+            clash = [f"{c} of {n} and {d} of {m}" for c in C for d in C for m in N if m != n and seq[n][c] == seq[m][d]]
+            r.require(not clash, f"{f.qualname}:another-length-another-key:n={n}", f,
+                      msg=f"{f.qualname} gives a {clash[0] if clash else ''} value(s) the same key {seq[n]['list']!r}: values of different length are then not seen as ragged, np.array() is applied to "
+                          "them and the write fails (or stores objects) although the collection is representable as a ragged array")
+        for label, v in (("int", 3), ("float", 2.5), ("None", None)):
+            ks = key_of(v)
+            clash = [f"{c} of {n}" for n in N for c in ("ndarray", "list", "tuple") if seq[n][c] == ks]
+            r.require(not clash, f"{f.qualname}:non-sequence-key-differs:{label}", f,
+                      msg=f"{f.qualname} gives the {label} value {v!r} the key {ks!r}, the key of a {clash[0] if clash else ''} value(s) sequence: `[[5.0], 3.0, None]` is then not seen as ragged, "
+                          "np.array() is applied to it and the write fails (or stores objects) although the collection is representable")
+    if nfam < 1:
+        raise AnchorMissing("a shape-key function (returns <value>.shape) in armi/bookkeeping/db")
+
+
 def run(idx, chk):
     chk.explanation = (
         "C05: pack/unpack are sibling implementations; their attrs key sets, strategy decision trees, None-sentinel tables, "
@@ -1023,3 +1206,7 @@ def run(idx, chk):
                  necessary="every value reads back with the kind and shape it was written with, None where None was written")
     chk.run_rule("R05.19", "toWriteToDB selects by overlap (evaluated); auto flag bits are searched in a loop and after the explicit values are registered", lambda r: r19_auto_bits_and_selection(idx, r), floor=4,
                  necessary="every assigned value is in the file; flag names keep their meaning across the round trip")
+    chk.run_rule("R05.20", "stored flag bytes are decoded verbatim (from_bytes without the bit map) only where stored order == current sortedFields(), in every function", lambda r: r20_verbatim_flag_bytes(idx, r), floor=2,
+                 necessary="'flag sets keep their meaning even when the set of defined flags is extended or REORDERED between writing and reading': a verbatim read under equal count/set/version exchanges the permuted flags")
+    chk.run_rule("R05.21", "the shape key compared by the raggedness test (evaluated): empty ndarray/list/tuple share one key, another length is another key, a non-sequence has a key no sequence has", lambda r: r21_shape_keys(idx, r), floor=8,
+                 necessary="'any collection the database accepts - fixed-shape arrays, ragged arrays, any pattern of unset entries - is returned with the same values and shapes': a wrong ragged/regular decision drops all-empty parameters or fails on [[5.0], 3.0, None]")
